@@ -21,9 +21,17 @@ What is modelled (as the code is written):
   final check `sum(shapes) == full_shape[0]`.  The order in which the workers perform their
   writes is an argument (any schedule).
 
-Not modelled: HDF5/zlib bytes, the process pool, `mp.Array`, the legacy `keys=None`
-(`/array` + `/lengths`) format, negative strides.  Element values and frames are opaque
-(`α`, `β`); dtypes are carried as tags.
+Outside the model (observed only through the correspondence run):
+* HDF5/zlib bytes and the compression level (it cannot influence the stored values; levels
+  0/1/9 are exercised), the process pool, `mp.Array`;
+* the HDF5 listing order: `listNodes` = names sorted as strings is a *trusted* description of
+  PyTables' `list_nodes`, compared with the real listing in every case;
+* per-file atom-count mismatches (files whose selected frames have different shapes): frames
+  are opaque here, the real code fails with a broadcast error;
+* floating point in `math.ceil(n_frames / stride)`: modelled as the exact `⌈n/s⌉`, which the
+  float expression equals for frame counts below 2^53 / stride;
+* the legacy `keys=None` (`/array` + `/lengths`) format and negative strides.
+Element values and frames are opaque (`α`, `β`); dtypes are carried as tags.
 -/
 namespace Ens.Store
 
@@ -281,6 +289,8 @@ the shared buffer.  Returns `(lengths, xyz)`.  A worker's exception is re-raised
 `proc.get()` before the final total check. -/
 def loadAsConcatenated {β} (specs : List (FileSpec β)) (hint : Option (List Nat))
     (order : List Nat) (init : Nat → β) : Except Err (List Nat × List β) :=
+  -- `args[0]` / `args[-1]` are evaluated (for the debug log) before anything else: no files -> IndexError
+  if specs.isEmpty then .error .indexError else
   match resolveLengths specs hint with
   | .error e => .error e
   | .ok lengths =>
